@@ -2,11 +2,13 @@
 //
 // ONT. The real header_sync contract (ONT router) is driven on a native World. Trust root: genesis header at
 // height 0 recording peer set S0 (N=4). Synthetic headers (real ontology types, real P-256 signatures) exist for
-// heights on both sides of the key heights 10 and 20: (5,-) (10,cfg S1) (11,-) (15,-) (20,cfg S2) (21,-)
-// [thorough: + (10,-) (15,cfg S2) (25,-)], S1 (N=5) and S2 (N=7) overlapping their predecessors in 2 resp. 1
-// members. Every header comes in 16 signer variants: for X ∈ {S0,S1,S2}: ok (⌈|X|/3⌉ distinct members exclusive
+// heights on both sides of the key heights: (0,cfg S2: same height as the trust root) (5,-) (10,cfg S1) (11,-) (15,-) (20,cfg S2) (21,-)
+// [thorough: + (1,cfg S1) (15,cfg S2)], S1 (N=5) and S2 (N=7) overlapping their predecessors in 2 resp. 1
+// members. Every header comes in 25 signer variants (bookkeeper list and SigData are independent ordered lists): for X ∈ {S0,S1,S2}: ok (⌈|X|/3⌉ distinct members exclusive
 // to X), under (one fewer), dup (one member listed ⌈|X|/3⌉ times), foreign (one fewer + an outsider), badsig
-// (last signature over another message); plus the two members shared by S0 and S1. mc.BFS explores ALL orders
+// (last signature over another message), nonsigners-then-outsiders (quorum-many members listed first who do NOT
+// sign, then signing outsiders), nonsigners-then-dup (… then one member repeated, signing), outsider-first; plus the
+// two members shared by S0 and S1. mc.BFS explores ALL orders
 // of submission to depth quick 4 / thorough 5, states deduplicated on the real storage dump.
 //
 // Reference model (shares no code with the implementation): stored heights, key height -> peer set, both
@@ -19,7 +21,8 @@
 //	                              that carries it, with exactly its peers); KEY_HEIGHTS strictly descending
 //	ok-variant signed by the set in force must be accepted (else harness error)
 //
-// NEO / NEO N3. Trust root: genesis header index 5, NextConsensus = script hash of A (3-of-4). Events: header
+// NEO / NEO N3 / N3 legacy. Trust root: genesis header index 5 (second run: index 0 with header indices {0,1,8,12}),
+// NextConsensus = script hash of A (3-of-4). Events: header
 // index ∈ {3,5,8,12,20} × NextConsensus ∈ {A,B,C} × witness script ∈ {A,B,C} × signatures ∈ {ok, under, dup,
 // reordered, foreign, badsig, all-n} plus two-header batches; all sequences to depth quick 3 / thorough 4.
 //
@@ -141,7 +144,8 @@ type ontEvent struct {
 	height  uint32
 	cfg     int // -1 none, else index into sets
 	variant string
-	signers []on.OntSigner
+	keys    []*polyenv.Acct // listed bookkeepers, in order
+	sigs    []on.OntSig     // SigData, in order (independent of keys)
 	raw     []byte
 }
 
@@ -179,7 +183,7 @@ func ontPart() mc.Stats {
 	S1 := polyenv.KeysFrom(102, 5)
 	S2 := polyenv.KeysFrom(106, 7)
 	sets := [][]*polyenv.Acct{S0, S1, S2}
-	F := polyenv.Key(199)
+	F := polyenv.KeysFrom(196, 3)
 	member := make([]map[string]bool, 3)
 	for i, s := range sets {
 		member[i] = map[string]bool{}
@@ -190,41 +194,58 @@ func ontPart() mc.Stats {
 	// members exclusive to a set, in order
 	excl := [][]*polyenv.Acct{{polyenv.Key(100), polyenv.Key(101)}, {polyenv.Key(104), polyenv.Key(105)},
 		{polyenv.Key(107), polyenv.Key(108), polyenv.Key(109)}}
-	g := func(ks ...*polyenv.Acct) []on.OntSigner {
-		out := make([]on.OntSigner, len(ks))
+	type variant struct {
+		name string
+		keys []*polyenv.Acct
+		sigs []on.OntSig
+	}
+	by := func(ks ...*polyenv.Acct) []on.OntSig {
+		out := make([]on.OntSig, len(ks))
 		for i, k := range ks {
-			out[i] = on.OntSigner{Key: k}
+			out[i] = on.OntSig{By: k}
 		}
 		return out
 	}
-	type variant struct {
-		name    string
-		signers []on.OntSigner
+	paired := func(name string, ks ...*polyenv.Acct) variant {
+		return variant{name, append([]*polyenv.Acct{}, ks...), by(ks...)}
+	}
+	cat := func(l ...[]*polyenv.Acct) []*polyenv.Acct {
+		var o []*polyenv.Acct
+		for _, x := range l {
+			o = append(o, x...)
+		}
+		return o
 	}
 	var variants []variant
 	for x := range sets {
 		e := excl[x]
 		need := len(e)
-		variants = append(variants, variant{fmt.Sprintf("ok:S%d", x), g(e...)})
-		variants = append(variants, variant{fmt.Sprintf("under:S%d", x), g(e[:need-1]...)})
+		variants = append(variants, paired(fmt.Sprintf("ok:S%d", x), e...))
+		variants = append(variants, paired(fmt.Sprintf("under:S%d", x), e[:need-1]...))
 		var dup []*polyenv.Acct
 		for i := 0; i < need; i++ {
 			dup = append(dup, e[0])
 		}
-		variants = append(variants, variant{fmt.Sprintf("dup:S%d", x), g(dup...)})
-		variants = append(variants, variant{fmt.Sprintf("foreign:S%d", x), append(g(e[:need-1]...), on.OntSigner{Key: F})})
-		b := g(e...)
-		b[need-1].Bad = true
-		variants = append(variants, variant{fmt.Sprintf("badsig:S%d", x), b})
+		variants = append(variants, paired(fmt.Sprintf("dup:S%d", x), dup...))
+		variants = append(variants, paired(fmt.Sprintf("foreign:S%d", x), cat(e[:need-1], F[:1])...))
+		b := paired(fmt.Sprintf("badsig:S%d", x), e...)
+		b.sigs[need-1].Bad = true
+		variants = append(variants, b)
+		// layout: the first ceil(N/3) listed bookkeepers are members who do NOT sign; the signatures come from outsiders /
+		// from one member repeated; an outsider listed first
+		variants = append(variants, variant{fmt.Sprintf("nonsigners-then-outsiders:S%d", x), cat(e, F[:need]), by(F[:need]...)})
+		variants = append(variants, variant{fmt.Sprintf("nonsigners-then-dup:S%d", x), cat(e, dup), by(dup...)})
+		variants = append(variants, paired(fmt.Sprintf("outsider-first:S%d", x), cat(F[:1], e[:need-1])...))
 	}
-	variants = append(variants, variant{"ok:S0∩S1", g(polyenv.Key(102), polyenv.Key(103))})
+	variants = append(variants, paired("ok:S0∩S1", polyenv.Key(102), polyenv.Key(103)))
 	type base struct {
 		h   uint32
 		cfg int
 	}
-	bases := []base{{5, -1}, {10, 1}, {11, -1}, {15, -1}, {20, 2}, {21, -1}}
+	// (0,S2): a header at the genesis height must never replace the trust root; (1,S1): key header right above it
+	bases := []base{{0, 2}, {5, -1}, {10, 1}, {11, -1}, {15, -1}, {20, 2}, {21, -1}}
 	if r.Thorough() {
-		bases = append(bases, base{10, -1}, base{15, 2}, base{25, -1})
+		bases = append(bases, base{1, 1}, base{15, 2})
 	}
 	var events []string
 	evs := map[string]*ontEvent{}
@@ -236,8 +257,8 @@ func ontPart() mc.Stats {
 				peers = sets[b.cfg]
 				cfg = fmt.Sprintf("S%d", b.cfg)
 			}
-			e := &ontEvent{id: fmt.Sprintf("h=%d/cfg=%s/%s", b.h, cfg, v.name), height: b.h, cfg: b.cfg, variant: v.name, signers: v.signers}
-			e.raw = on.OntHeader(b.h, peers, uint64(1000+bi), v.signers)
+			e := &ontEvent{id: fmt.Sprintf("h=%d/cfg=%s/%s", b.h, cfg, v.name), height: b.h, cfg: b.cfg, variant: v.name, keys: v.keys, sigs: v.sigs}
+			e.raw = on.OntHeaderLayout(b.h, peers, uint64(1000+bi), v.keys, v.sigs)
 			events = append(events, e.id)
 			evs[e.id] = e
 		}
@@ -283,9 +304,9 @@ func ontPart() mc.Stats {
 			P := member[s.Keys[k]]
 			size = len(P)
 			seen := map[string]bool{}
-			for _, sg := range e.signers {
-				if !sg.Bad && !sg.NoSig && P[sg.Key.PubHex] {
-					seen[sg.Key.PubHex] = true
+			for _, sg := range e.sigs {
+				if !sg.Bad && P[sg.By.PubHex] {
+					seen[sg.By.PubHex] = true
 				}
 			}
 			dv = len(seen)
@@ -482,7 +503,11 @@ func distinctGood(l []on.Sig) int {
 	return len(seen)
 }
 
-func neoPart(k neoKit) mc.Stats {
+// neoPart explores one router from a trust root at index g; idxs are the header indices of the alphabet.
+func neoPart(k neoKit, g uint32, idxs []uint32) mc.Stats {
+	if g == 0 {
+		k.chain += 10
+	}
 	depth := r.QT(3, 4)
 	names := []string{"A", "B", "C"}
 	var events []string
@@ -494,7 +519,7 @@ func neoPart(k neoKit) mc.Stats {
 		return neoHdr{index, next, script, vn, distinctGood(l)}, k.header(index, next, script, l, salt)
 	}
 	vnames := []string{"ok", "under", "tail", "all", "dup", "reordered", "foreign", "badsig"}
-	for _, idx := range []uint32{3, 5, 8, 12, 20} {
+	for _, idx := range idxs {
 		for next := 0; next < 3; next++ {
 			for script := 0; script < 3; script++ {
 				for _, vn := range vnames {
@@ -516,8 +541,8 @@ func neoPart(k neoKit) mc.Stats {
 	}
 	w := baseWorld()
 	must(on.RegisterSideChain(w, vals, k.chain, k.router, k.name, []byte{5, 0, 0, 0}, k.extra), "register "+k.name)
-	mustOK(w.Exec(on.GenesisTx(vals, k.chain, k.header(5, 0, 1, nil, 0)), 5, 500), k.name+" genesis")
-	init := neoState{D: w.Dump(), H: 5, NC: 0}
+	mustOK(w.Exec(on.GenesisTx(vals, k.chain, k.header(g, 0, 1, nil, 0)), 5, 500), k.name+" genesis")
+	init := neoState{D: w.Dump(), H: g, NC: 0}
 	w.Close()
 	trackedKey := hsenv.HSPrefix("consensusPeer", k.chain)
 	decode := func(d polyenv.Dump) (uint32, string, bool) {
@@ -531,8 +556,8 @@ func neoPart(k neoKit) mc.Stats {
 		nc := string(x.varbytes())
 		return h, nc, !x.bad
 	}
-	if h, nc, ok := decode(init.D); !ok || h != 5 || nc != k.hash[0] {
-		r.HarnessError("%s: genesis did not record (5, A): %v %x %v", k.name, h, nc, ok)
+	if h, nc, ok := decode(init.D); !ok || h != g || nc != k.hash[0] {
+		r.HarnessError("%s: genesis did not record (g, A): %v %x %v", k.name, h, nc, ok)
 	}
 	st := mc.BFS(mc.Config[neoState]{
 		Init: []neoState{init}, MaxDepth: depth, Workers: workers, Stop: r.Expired,
@@ -699,9 +724,13 @@ func main() {
 	add(&total, so)
 	per["ont"] = map[string]any{"states": so.States, "transitions": so.Transitions, "max_depth": so.MaxDepth, "per_depth": so.PerDepth, "fixpoint": !so.DepthCapped && !so.Truncated}
 	for _, k := range []neoKit{neoKitLegacy(), neo3Kit(), neo3LegacyKit()} {
-		s := neoPart(k)
+		s := neoPart(k, 5, []uint32{3, 5, 8, 12, 20})
 		add(&total, s)
 		per[k.name] = map[string]any{"states": s.States, "transitions": s.Transitions, "max_depth": s.MaxDepth, "per_depth": s.PerDepth, "fixpoint": !s.DepthCapped && !s.Truncated}
+		// boundary: trust root at index 0 (a tracked index of 0 must not be confused with "nothing tracked")
+		z := neoPart(k, 0, []uint32{0, 1, 8, 12})
+		add(&total, z)
+		per[k.name+"/root-at-index-0"] = map[string]any{"states": z.States, "transitions": z.Transitions, "max_depth": z.MaxDepth, "per_depth": z.PerDepth, "fixpoint": !z.DepthCapped && !z.Truncated}
 	}
 	if total.Truncated {
 		r.Capped("deadline reached inside a BFS")
